@@ -346,6 +346,52 @@ class DB:
             if f.parent:
                 self.children.setdefault(f.parent, []).append(f.id)
 
+    def field_attr_text(self, adt_id, field_name, repo=None):
+        """Source text of the attributes written above a struct field (read from /repo's
+        current source via the field's definition span)."""
+        a = self.adts.get(adt_id)
+        if not a:
+            return ""
+        repo = repo or self.repo_root()
+        prev_end = int(a["sp"].split(":")[1])
+        for v in a["variants"]:
+            for f in v["fields"]:
+                sp = f.get("sp")
+                if not sp:
+                    return f.get("attrs", "")
+                parts = sp.split(":")
+                path, l0, l1 = parts[0], int(parts[1]), int(parts[3])
+                if f["name"] == field_name:
+                    try:
+                        with open(os.path.join(repo, path)) as fh:
+                            lines = fh.read().split("\n")
+                    except OSError:
+                        return ""
+                    seg = lines[prev_end:l0 - 1]
+                    return "\n".join(x for x in seg if not x.strip().startswith("//"))
+                prev_end = l1
+        return ""
+
+    def repo_root(self):
+        try:
+            with open(os.path.join(self.dir, ".complete")) as fh:
+                return json.load(fh).get("repo", REPO)
+        except (OSError, ValueError):
+            return REPO
+
+    def ext_variants(self, adt):
+        """{discriminant string: variant name} of an enum defined outside the workspace,
+        learnt from the aggregates that construct it anywhere in the workspace."""
+        if not hasattr(self, "_extv"):
+            m = {}
+            for f in self.fns.values():
+                for bb in f.bbs:
+                    for s in bb["s"]:
+                        if s["k"] == "a" and s["r"]["k"] == "agg" and s["r"].get("ak") == "adt" and s["r"]["adt"] not in self.adts:
+                            m.setdefault(s["r"]["adt"], {})[str(s["r"]["vi"])] = s["r"]["var"]
+            self._extv = m
+        return self._extv.get(adt, {})
+
     def fn(self, ident):
         f = self.fns.get(ident)
         if f is None:
